@@ -64,6 +64,7 @@ def main(tier: str) -> int:
         sims = dict(ex.map(sim, unis))
     subs = writer.substitutions(seed)
     cases, traces = [], []
+    refused = 0
     for uni in unis:
         behs, r = sims[uni]
         c = U.SIM[uni]
@@ -91,6 +92,10 @@ def main(tier: str) -> int:
             preset = rnd.choice([(c["MaxN"], c["MaxP"], c["MaxD"]), (4000, 150, 32), (16, 0, 4)])
             if bi % 5 == 4:
                 preset = (c["MaxN"], c["MaxP"], 0)
+            # tables smaller than one statement's needs (C18): the serializer may refuse, but whatever it writes must still be the data
+            undersized = bi % 5 == 3
+            if undersized:
+                preset = (c["MaxN"], rnd.choice([1, 2, 3]), rnd.choice([1, c["MaxD"]]))
             fs = rnd.choice([1, 2, 5, 250])
             variants = []
             if not dataset:
@@ -133,6 +138,9 @@ def main(tier: str) -> int:
                             impl.write_delimited(fr, out)
                     data = out.getvalue()
                 except Exception as ex:  # noqa: BLE001
+                    if undersized and type(ex).__name__ == "JellyConformanceError" and "cannot hold" in str(ex):
+                        refused += 1
+                        continue
                     run.violation({"clause": "serializer-raised", **key}, f"{type(ex).__name__}: {ex}", rp)
                     continue
                 really_delimited = delimited if cfg["entry"] == "graph_serialize" else True
@@ -194,9 +202,10 @@ def main(tier: str) -> int:
             samples.append({"key": key, "statements": len(case["want"]), "bytes": len(case["data"])})
     return run.finish({
         "states": states + jst["states"], "transitions": trans + jst["transitions"], "traces_validated_against_impl": len(traces), "samples": samples,
-        "exhaustive": False, "slices": cov, "cases": len(cases),
+        "exhaustive": False, "slices": cov, "cases": len(cases), "undersized_tables_refused": refused,
         "explanation": "RDF 1.1 behaviours of PyWriter (TLC simulation; default/IRI/bnode graph names, plain/lang/typed objects incl. xsd:string and non-canonical lexical forms) "
                        "are built as rdflib Graph/Dataset and written through Graph.serialize (TripleStream / QuadStream / GraphStream, flat and grouped logical types, delimited and "
                        "non-delimited flat), flat_/grouped_stream_to_file and stream_frames; the bytes are judged by TLC as a SET against what rdflib reports as the input and parsed "
-                       "back through Graph.parse / Dataset.parse, parse_jelly_to_graph and parse_jelly_flat",
+                       "back through Graph.parse / Dataset.parse, parse_jelly_to_graph and parse_jelly_flat; every fifth behaviour is written with prefix/datatype tables smaller "
+                       "than one statement may need (refusal allowed, silent corruption not)",
     })
